@@ -123,7 +123,12 @@ def case_history(ctx, case):
                 def gen(pos, cells, calls=calls, salt=salt):
                     calls.append(tuple(pos))
                     return code(pos, salt) if salt % 3 else f'{pos[0]}:{pos[1]}:{pos[2]}'
-                env.add_cell_component(name, gen)
+                if rng.random() < 0.15:
+                    from vlib import reps
+                    reps.deprecated_call(env.addCellComponent, name, gen)       # deprecated spelling
+                    ctx.count('deprecated_alias_calls')
+                else:
+                    env.add_cell_component(name, gen)
                 exp = [code(p, salt) if salt % 3 else f'{p[0]}:{p[1]}:{p[2]}' for p in table]
                 ctx.count('generator_calls_checked', len(calls))
                 check(sorted(calls) == sorted(table), 'generator was not called with every cell\'s coordinates', calls=calls[:20], shape=ext)
